@@ -52,7 +52,8 @@ def run(ctx):
     ctx.samples = [{"fam": "ints", "vals": [vlib.le(v, 8) for v in vals[250:260]]}, emb[5]]
     ctx.n = 3 * len(vals)
     ctx.distinct = set(vals)
-    ac.judge(ctx, progs + emb, "c08", prop="C08") if False else vlib.run_and_judge(ctx, progs + emb, "Trace_Aml.cfg", "Trace_Aml.tla", "c08")
+    ac.judge(ctx, progs + emb, "c08")
+    ac.judge(ctx, progs[::3] + emb, "c08chk", profile="checked")
     return vlib.finish(ctx, rule="values: all u8 and u16 exhaustively, every width boundary +-2, all single-bit / all-but-one-bit / "
                        "low-mask and byte-fill patterns, seeded random values of every byte width; each value submitted through every "
                        "integer type that can carry it (u8,u16,u32,u64,usize) and embedded as buffer size / package element; "
